@@ -572,6 +572,116 @@ def u_from_samples(logL, logW):
     return math.sqrt(sum((x - zhat) ** 2 for x in w) / (n * (n - 1))), zhat
 
 
+def py_criteria(logL, logW, live_idx, nested_idx, thr, prev_logZ):
+    """the criteria by their definitions, in plain float arithmetic (fsum), over ALL samples: a sample with
+    log L = -inf contributes Z_i = 0 and still counts in n"""
+    l_ = [a + b for a, b in zip(logL, logW)]
+    w = [math.exp(x) if x > -INF else 0.0 for x in l_]
+
+    def logz(idx):
+        ws = [w[i] for i in idx]
+        t = math.fsum(ws)
+        return (math.log(t) - math.log(len(ws))) if ws and t > 0 else -INF
+
+    n = len(w)
+    tot = math.fsum(w)
+    zhat = tot / n
+    lz = logz(range(n))
+    u = math.sqrt(math.fsum((x - zhat) ** 2 for x in w) / (n * (n - 1))) if n > 1 else float("nan")
+    out = {"log_evidence": lz, "ess": tot * tot / math.fsum(x * x for x in w), "evidence_error": u,
+           "fractional_error": u / zhat, "log_evidence_error": u / zhat,
+           "ratio": logz([i for i in range(n) if logL[i] >= thr]) - lz,
+           "ratio_ns": logz(live_idx) - logz(nested_idx),
+           "log_dZ": abs(lz - prev_logZ) if prev_logZ is not None else INF}
+    return out
+
+
+def criteria_mismatches(e):
+    """names of the criteria whose reported value differs from the definition recomputed from the samples of e"""
+    logL, logW = [unnum(v) for v in e["logL"]], [unnum(v) for v in e["logW"]]
+    prev = None if e.get("prev_logZ") is None else unnum(e["prev_logZ"])
+    d = py_criteria(logL, logW, e["live_idx"], e["nested_idx"], unnum(e["threshold"]), prev)
+    got = {k: unnum(v) for k, v in e["attrs"].items()}
+    got["log_evidence"] = unnum(e["log_evidence"])
+    got["log_evidence_error"] = unnum(e["log_evidence_error"])
+    bad = []
+
+    def close(a, b):
+        if a == b:
+            return True
+        if not (math.isfinite(a) and math.isfinite(b)):
+            return False
+        return abs(a - b) <= 1e-9 * (1.0 + abs(b))
+
+    for k in ("log_evidence", "ess", "fractional_error", "log_evidence_error", "ratio", "ratio_ns", "log_dZ"):
+        if not close(got[k], d[k]):
+            bad.append((k, got[k], d[k]))
+    z = got["Z_err"]
+    if not (close(z, d["evidence_error"]) or close(z, math.exp(d["fractional_error"]))):   # the second form is finding D10
+        bad.append(("Z_err", z, d["evidence_error"]))
+    return bad
+
+
+def gen_critvec(rng, n):
+    out = []
+    for _ in range(n):
+        def vec(m):
+            nz = rng.choice([0, 0, 1, 2, m // 3, m // 2])
+            logL = sorted(rng.uniform(-8, 0) for _ in range(m - nz))
+            logL = ["-inf"] * nz + logL
+            logW = [rng.uniform(-1.5, 1.5) for _ in range(m)]
+            k = rng.randint(nz + 1, m - 1)           # nested samples: the zero-likelihood ones and at least one finite
+            thr = logL[k]
+            return {"logL": logL, "logW": logW, "nested_idx": list(range(k)), "live_idx": list(range(k, m)), "threshold": thr}
+        m = rng.choice([4, 6, 9, 16, 25, 40])
+        cur = vec(m)
+        prev = vec(rng.choice([4, 6, 9, 16])) if rng.random() < 0.7 else None
+        out.append({"cur": cur, "prev": prev})
+    return out
+
+
+def check_critvec(chk, c, o, ccases):
+    rp = {"critvec": c}
+    if "raised" in o:
+        chk.fail("C15:ins:criterion-raised", f"compute_stopping_criterion raised {o['raised']}: {o.get('msg', '')}", rp)
+        return
+    e = dict(c["cur"], attrs=o["attrs"], log_evidence=o["log_evidence"], log_evidence_error=o["log_evidence_error"],
+             prev_logZ=o["prev_logZ"])
+    nz = sum(1 for v in c["cur"]["logL"] if unnum(v) == -INF)
+    chk.count("critvec:zero-likelihood samples:" + ("none" if nz == 0 else "some"))
+    for name, got, want in criteria_mismatches(e):
+        chk.fail(f"C15:ins:criterion-definition:{name}",
+                 f"criterion {name} = {got!r} on a vector of {len(c['cur']['logL'])} samples ({nz} with zero likelihood); "
+                 f"its definition recomputed from the samples gives {want!r}", dict(rp, observed=o))
+    if [float_key(unnum(v)) for v in o["returned"]] != [float_key(unnum(o["attrs"][k])) for k in CRITS]:
+        chk.fail("C15:ins:criterion-source", "the values returned by compute_stopping_criterion are not the attributes", rp)
+    # the same decided in Coq with enclosures
+    cur, prev = c["cur"], c["prev"]
+    rows = [cT(dyo(a), dyo(b)) for a, b in zip(cur["logL"], cur["logW"])]
+    sl = cL(rows)
+    a = o["attrs"]
+    tag = f"vector n={len(rows)} zero={nz}"
+    thr = unnum(cur["threshold"])
+    above = [rows[i] for i, v in enumerate(cur["logL"]) if unnum(v) >= thr]
+    ccases.append((f"CLogZ {sl} {dy(o['log_evidence'])}", f"{tag}: log Z"))
+    ccases.append((f"CEss {sl} {dy(a['ess'])}", f"{tag}: ess"))
+    ccases.append((f"CFrac {sl} {dy(a['fractional_error'])}", f"{tag}: fractional_error"))
+    ccases.append((f"CFrac {sl} {dy(o['log_evidence_error'])}", f"{tag}: log_evidence_error"))
+    u, zhat = u_from_samples([unnum(v) for v in cur["logL"]], [unnum(v) for v in cur["logW"]])
+    if abs(unnum(a["Z_err"]) - u) <= abs(unnum(a["Z_err"]) - math.exp(u / zhat)):
+        ccases.append((f"CU {sl} {dy(a['Z_err'])}", f"{tag}: Z_err (= evidence error)"))
+    else:
+        ccases.append((f"CZerrCode {sl} {dy(a['Z_err'])}", f"{tag}: Z_err (as coded)"))
+    if math.isfinite(unnum(a["ratio"])):
+        ccases.append((f"CRatio {cL(above)} {sl} {dy(a['ratio'])}", f"{tag}: ratio"))
+    if math.isfinite(unnum(a["ratio_ns"])):
+        ccases.append((f"CRatio {cL([rows[i] for i in cur['live_idx']])} {cL([rows[i] for i in cur['nested_idx']])} "
+                       f"{dy(a['ratio_ns'])}", f"{tag}: ratio_ns"))
+    if prev is not None and math.isfinite(unnum(a["log_dZ"])):
+        prow = cL(cT(dyo(x), dyo(y)) for x, y in zip(prev["logL"], prev["logW"]))
+        ccases.append((f"CDz {sl} {prow} {dy(a['log_dZ'])}", f"{tag}: log_dZ"))
+
+
 def check_ins_real(chk, r):
     name = r["cfg"]["name"]
     rp = {"real_run": "importance", "cfg": r["cfg"]}
@@ -607,6 +717,12 @@ def check_ins_real(chk, r):
             chk.fail("C15:ins:log_dZ-first", "log_dZ at the first iteration is not inf", rp)
         if "logL" in e:
             logL, logW = [unnum(v) for v in e["logL"]], [unnum(v) for v in e["logW"]]
+            nz = sum(1 for v in logL if v == -INF)
+            chk.count("real:ins:iterations with zero-likelihood samples" if nz else "real:ins:iterations without zero-likelihood samples")
+            for cname, got_, want_ in criteria_mismatches(e):
+                chk.fail(f"C15:ins:criterion-definition:{cname}",
+                         f"run {name}, iteration {j}: criterion {cname} = {got_!r} is compared / recorded, its definition "
+                         f"recomputed from the sampler's {len(logL)} samples ({nz} with zero likelihood) gives {want_!r}", rp)
             u, zhat = u_from_samples(logL, logW)
             z = unnum(e["attrs"]["Z_err"])
             if abs(z - u) > 1e-6 * max(1.0, abs(u)):
@@ -741,7 +857,7 @@ def std_run_cfgs(tier, seed, base):
     return cfgs
 
 
-def ins_run_cfgs(tier, seed, base):
+def ins_run_cfgs(tier, seed, base, cut_runs=()):
     its = base["its"]
     a = [{n: unnum(e["attrs"][n]) for n in CRITS} for e in its]
     k = min(2, len(a) - 1)
@@ -756,6 +872,16 @@ def ins_run_cfgs(tier, seed, base):
              tolerance=[jnum(a[min(1, len(a) - 1)]["log_dZ"]), jnum(a[k]["fractional_error"])], check_criteria="all",
              max_iteration=6),
     ]
+    for cb in cut_runs:
+        if "error" in cb or not cb.get("its"):
+            continue
+        ac = [{n: unnum(e["attrs"][n]) for n in CRITS} for e in cb["its"]]
+        kc = min(1, len(ac) - 1)
+        cfgs.append(dict(common_kw, name="cut_frac_eq", cut=3.0, stopping_criterion="fractional_error",
+                         tolerance=jnum(ac[kc]["fractional_error"]), max_iteration=5, keep_samples=True))
+        if tier != "quick":
+            cfgs.append(dict(common_kw, name="cut_zerr_eq", cut=3.0, stopping_criterion="evidence_error",
+                             tolerance=jnum(ac[kc]["Z_err"]), max_iteration=6, keep_samples=True))
     if tier != "quick":
         cfgs += [
             dict(common_kw, name="ess_dir", stopping_criterion="ess", tolerance=jnum(a[0]["ess"]), max_iteration=5),
@@ -796,10 +922,14 @@ def run(chk):
             "reached": gen_reached(rng, 400 if quick else 3000),
             "configure": gen_configure(rng, 200 if quick else 1500, rows),
             "finalise": gen_finalise(rng, 100 if quick else 600),
-            "zerr": [{"logL": [rng.uniform(-6, 0) for _ in range(30)], "logW": [rng.uniform(-1, 1) for _ in range(30)], "tol": 0.5}]}
+            "zerr": [{"logL": [rng.uniform(-6, 0) for _ in range(30)], "logW": [rng.uniform(-1, 1) for _ in range(30)], "tol": 0.5}],
+            "critvec": gen_critvec(rng, 60 if quick else 400)}
     std_base = {"mode": "std", "root": root + "_std", "runs": [{"name": "base", "nlive": 50, "seed": seed, "max_iteration": 60}]}
     ins_base = {"mode": "ins", "root": root + "_ins", "runs": [{"name": "base", "nlive": 40, "seed": seed, "tolerance": -50.0,
-                                                       "max_iteration": 5 if quick else 8, "keep_samples": True}]}
+                                                       "max_iteration": 5 if quick else 8, "keep_samples": True},
+                                                      # a likelihood that is exactly zero outside a disc: log-weights of -inf
+                                                      {"name": "cut_base", "nlive": 40, "seed": seed, "tolerance": -50.0, "cut": 3.0,
+                                                       "max_iteration": 3 if quick else 6, "keep_samples": True}]}
     with concurrent.futures.ThreadPoolExecutor(max_workers=4) as ex:
         f_s = ex.submit(child_json, chk, sjob, 900)
         f_b = ex.submit(child_json, chk, std_base, 600)
@@ -816,18 +946,20 @@ def run(chk):
             std_runs.append(bres["runs"][0])
             f2 = ex.submit(child_json, chk, {"mode": "std", "root": root + "_std", "runs": std_run_cfgs(chk.tier, seed, bres["runs"][0])}, 1500)
         if ires is not None and "error" not in ires["runs"][0]:
-            ins_runs.append(ires["runs"][0])
-            f3 = ex.submit(child_json, chk, {"mode": "ins", "root": root + "_ins", "runs": ins_run_cfgs(chk.tier, seed, ires["runs"][0])}, 1500)
+            ins_runs += ires["runs"]
+            f3 = ex.submit(child_json, chk, {"mode": "ins", "root": root + "_ins",
+                                             "runs": ins_run_cfgs(chk.tier, seed, ires["runs"][0], ires["runs"][1:])}, 1500)
         # ---- scripted part while the boundary runs are going ------------------------------------------
+        vec_cases = []
         if sres is not None:
-            scripted(chk, sjob, sres, gen, rows)
+            vec_cases = scripted(chk, sjob, sres, gen, rows)
         for f, runs, what in ((f2, std_runs, "standard"), (f3, ins_runs, "importance")):
             if f is not None:
                 res, err = f.result()
                 chk.oblige(f"real {what} boundary runs ran", "harness", res is not None, err)
                 if res is not None:
                     runs += res["runs"]
-    real(chk, std_runs, ins_runs, gen)
+    real(chk, std_runs, ins_runs, gen, vec_cases)
 
 
 def scripted(chk, job, res, gen, rows):
@@ -931,6 +1063,12 @@ def scripted(chk, job, res, gen, rows):
     # ---- D10: Z_err on a real integral state ---------------------------------------------------------------
     for c, o in zip(job["zerr"], res["zerr"]):
         check_zerr(chk, c, o)
+    # ---- every criterion on sample vectors with and without zero-likelihood samples -----------------------------
+    vec_cases = []
+    for c, o in zip(job.get("critvec", []), res.get("critvec", [])):
+        check_critvec(chk, c, o, vec_cases)
+    chk.evaluations += len(job.get("critvec", []))
+    return vec_cases
 
 
 def check_zerr(chk, c, o):
@@ -944,10 +1082,10 @@ def check_zerr(chk, c, o):
     return False
 
 
-def real(chk, std_runs, ins_runs, gen):
+def real(chk, std_runs, ins_runs, gen, vec_cases=()):
     hdr = GEN_HDR + gen
     lits = []
-    ccases = []
+    ccases = list(vec_cases)
     for r in std_runs:
         check_std_real(chk, r, None)
         if "error" in r:
@@ -1041,6 +1179,10 @@ def replay(data):
         if o.get("reached") != spec_reached(c["any"], [unnum(v) for v in c["crit"]], [unnum(v) for v in c["tol"]]):
             chk.fail("C15:ins:reached", "reached_tolerance differs from any/all", rp)
         print(json.dumps(o))
+    elif "critvec" in rp:
+        o = child({"mode": "scripted", "critvec": [rp["critvec"]]})["critvec"][0]
+        print(json.dumps(o))
+        check_critvec(chk, rp["critvec"], o, [])
     elif "zerr" in rp:
         o = child({"mode": "scripted", "zerr": [rp["zerr"]]})["zerr"][0]
         print(json.dumps(o))
